@@ -27,6 +27,9 @@ CLAUSES = [
     case([{"path": "nodes/n.yml", "content": {"parameters": G.M([["m", G.M([[G.I(1), "a"], [True, "b"], [G.I(0), "c"], ["k", "d"], [False, "e"]])]])}}]),
     # known finding D17: a layer list left in the rendered data reaches unreachable!() in as_py_obj
     case([node_file({"a": {"x": True}, "===a": {"x": False}})]),
+    # equal mappings written in different key orders (anything memoised by value must keep each one's own order)
+    case([node_file({"blue": {"cpu": 2, "memory": "4Gi", "n": {"x": 1, "y": 2}}, "green": {"memory": "4Gi", "cpu": 2, "n": {"y": 2, "x": 1}},
+                     "l": [{"a": 1, "b": 2}, {"b": 2, "a": 1}], "near": [{"a": 1}, {"a": 1.0}, {"a": True}, {"a": "1"}]})]),
     # failures surface as ValueError
     case([node_file({"boom": "${no:such}"})]),
     case([node_file({}, classes=["missing"])]),
@@ -134,6 +137,26 @@ class C19(Prop):
                     e[1] = {"m": [[k, G.scalar(r)] for k in ks if not (repr(k) in seen or seen.add(repr(k)))]}
                 G.add_refs(r, layers, r.range(0, 3), p_cyclic=0, p_dangling=3)
                 params = layers[0]
+                if i % 4 == 1:
+                    # structurally equal values at several places, mappings in permuted key order, and
+                    # near-equal scalars (1, 1.0, true, "1"): conversion must treat every occurrence on its own
+                    maps = [e for e in params["m"] if G.is_map(e[1]) and len(e[1]["m"]) >= 2]
+                    if not maps:
+                        params["m"].append(["tw0", {"m": [["p", G.I(1)], ["q", "x"], ["r", [G.I(1)]]]}])
+                        maps = [params["m"][-1]]
+                    src = r.choice(maps)[1]
+                    for k in range(r.range(1, 3)):
+                        perm = {"m": r.shuffle([list(e) for e in src["m"]])}
+                        if r.chance(1, 3) and perm["m"]:
+                            e = r.choice(perm["m"])
+                            e[1] = r.choice([{"f": ["1.0", "1.0"]}, True, "1", G.I(1)]) if e[1] in (G.I(1), True, "1") else e[1]
+                        where = r.choice(["top", "list", "nested"])
+                        if where == "top":
+                            params["m"].append(["twin%d" % k, perm])
+                        elif where == "list":
+                            params["m"].append(["twl%d" % k, [src, perm, "x"]])
+                        else:
+                            params["m"].append(["twn%d" % k, {"m": [["in", perm], ["orig", src]]}])
                 yield {"op": "py_inventory", "config": {}, "files": [{"path": "nodes/n.yml", "content": {"parameters": params}}]}
 
     def judge(self, req, impl, reply):
